@@ -117,7 +117,7 @@ Definition as_str (o : option tv) : option str :=
   match o with Some (TStr s) => Some s | _ => None end.
 
 (* strictly increasing keys: the BTreeMap invariant *)
-Fixpoint keys_lt (k : str) (l : list (str * tv)) : bool :=
+Definition keys_lt (k : str) (l : list (str * tv)) : bool :=
   match l with
   | [] => true
   | (k', _) :: _ => match str_cmp k k' with Lt => true | _ => false end
@@ -139,4 +139,21 @@ Fixpoint tv_size (v : tv) : nat :=
   | TArr l => S (fold_right (fun x a => tv_size x + a)%nat 0%nat l)
   | TTab l => S (fold_right (fun kv a => tv_size (snd kv) + a)%nat 0%nat l)
   | _ => 1%nat
+  end.
+
+(* injective numeric code of a value: used to print results from vm_compute (cases.v) *)
+Definition z_code (z : Z) : list N :=
+  match z with Z0 => [0; 0] | Zpos p => [1; Npos p] | Zneg p => [2; Npos p] end.
+
+Fixpoint tv_code (v : tv) : list N :=
+  match v with
+  | TStr s => 1 :: N.of_nat (length s) :: s
+  | TInt z => 2 :: z_code z
+  | TFloat b => [3; b]
+  | TBool b => [4; if b then 1 else 0]
+  | TDate s => 5 :: N.of_nat (length s) :: s
+  | TArr l => 6 :: N.of_nat (length l) :: flat_map tv_code l
+  | TTab l =>
+      7 :: N.of_nat (length l)
+        :: flat_map (fun kv => N.of_nat (length (fst kv)) :: fst kv ++ tv_code (snd kv)) l
   end.
